@@ -76,6 +76,8 @@ pub struct Panel {
     pub scroll_start: Option<u16>,
     pub tear: Option<Option<u8>>,
     pub soft_resets: u32,
+    /// see abort_partial
+    pub latch_on_abort: bool,
     // parser
     cur: Option<u8>,
     params: Vec<u8>,
@@ -127,6 +129,7 @@ impl Panel {
             scroll_start: None,
             tear: None,
             soft_resets: 0,
+            latch_on_abort: false,
             cur: None,
             params: Vec::new(),
             cur_t: 0,
@@ -403,6 +406,22 @@ impl Panel {
         }
     }
 
+    /// Register state after a software reset or a hardware reset pulse (frame memory keeps
+    /// its content: what matters here is that nothing programmed before survives).
+    fn reset_registers(&mut self) {
+        self.sleeping = true;
+        self.display_on = false;
+        self.inverted = false;
+        self.normal_mode = true;
+        self.madctl = 0;
+        self.colmod = 0;
+        self.caset = (0, (self.fw - 1).min(0xFFFF) as u16);
+        self.raset = (0, (self.fh - 1).min(0xFFFF) as u16);
+        self.scroll_def = None;
+        self.scroll_start = None;
+        self.tear = None;
+    }
+
     fn exec(&mut self, op: u8, p: &[u8]) {
         self.page_at_exec = self.page;
         if op == 0xFE && p.len() == 1 {
@@ -416,17 +435,7 @@ impl Panel {
             0x01 => {
                 if self.want(op, p, 0) {
                     self.soft_resets += 1;
-                    self.sleeping = true;
-                    self.display_on = false;
-                    self.inverted = false;
-                    self.normal_mode = true;
-                    self.madctl = 0;
-                    self.colmod = 0;
-                    self.caset = (0, (self.fw - 1).min(0xFFFF) as u16);
-                    self.raset = (0, (self.fh - 1).min(0xFFFF) as u16);
-                    self.scroll_def = None;
-                    self.scroll_start = None;
-                    self.tear = None;
+                    self.reset_registers();
                 }
             }
             0x10 => {
@@ -567,6 +576,14 @@ impl Panel {
             }
             BusEv::Delay(ns) => self.now += ns,
             BusEv::Rst(level) => {
+                if !level {
+                    // RESX low: the controller forgets its registers (a transport or driver that
+                    // remembers what it programmed earlier cannot see this pulse on the bus)
+                    self.finalize();
+                    self.page = 0;
+                    self.in_ramwr = false;
+                    self.reset_registers();
+                }
                 self.log.push(PEv::Rst { level, t: self.now });
             }
             BusEv::Wire(w) => self.anomaly(Anomaly::Wire(w)),
@@ -582,6 +599,12 @@ impl Panel {
     /// After a call that was aborted by an injected fault: forget the
     /// half-sent command without judging it.
     pub fn abort_partial(&mut self) {
+        // an address-mode command whose parameter byte did arrive is latched by the controller
+        // even though the bus reported the transfer as failed (only where the caller asked for
+        // this fidelity: the driver and the controller then disagree until the call is repeated)
+        if self.latch_on_abort && self.cur == Some(0x36) && self.params.len() == 1 && self.page == 0 {
+            self.madctl = self.params[0];
+        }
         self.cur = None;
         self.params.clear();
         if self.in_ramwr && (self.burst_pixels > 0 || self.burst_wraps > 0) {
